@@ -46,7 +46,7 @@ var validBIP276 = regexp.MustCompile(`^(.+?):([0-9A-Fa-f]{2})([0-9A-Fa-f]{2})([0
 // EncodeBIP276 is used to encode specific (non-standard) scripts in BIP276 format.
 // See https://github.com/moneybutton/bips/blob/master/bip-0276.mediawiki
 func EncodeBIP276(script BIP276) string {
-	if script.Version == 0 || script.Version > 255 || script.Network == 0 || script.Network > 255 {
+	if script.Version < 1 || script.Version > 255 || script.Network < 1 || script.Network > 255 {
 		return "ERROR"
 	}
 
